@@ -1085,10 +1085,21 @@ def c03_single_input_history(rng, tier):
     live = build()
     with quiet():
         live.run_model()
+    # a second model built from the same script (identical names) is kept alive and analysed at *other* inputs between the
+    # steps of the live one: instances must not share state through class attributes or module-level tables
+    decoy = build()
     out = []
     order = [names[int(i)] for i in rng.permutation(len(names))][:4]
     state = {}
     for nm in order:
+        try:
+            with quiet():
+                for k2 in order:
+                    v2 = np.array(decoy.get_val(k2), dtype=float)
+                    decoy.set_val(k2, v2 * (1.0 + 0.2 * rng.uniform(-1, 1, size=v2.shape)) + (0.03 if np.all(v2 == 0) else 0.0))
+                decoy.run_model()
+        except Exception:
+            pass
         try:
             x0 = np.array(live.get_val(nm), dtype=float)
         except Exception:
